@@ -1143,6 +1143,32 @@ func c22WrapScenario(mon *[]MonitorFailure) {
 // c22Monitor: active tickers unique, ids dense and fresh, on the node's export.
 func c22Monitor(nd *Node, mon *[]MonitorFailure, where string) {
 	e := nd.Export()
+	// the registry as the running node sees it must be the registry that was committed: a state opened from the
+	// database at this height (what a restarted node, an export or a state-synced node reads) lists the same
+	// coins with the same owners, versions and supplies
+	if cs, err := state.NewCheckStateAtHeightV3(uint64(nd.Height), nd.Store.StateDB()); err == nil {
+		f := cs.Export()
+		key := func(c types.Coin) string {
+			o := "-"
+			if c.OwnerAddress != nil {
+				o = c.OwnerAddress.String()
+			}
+			return fmt.Sprintf("id=%d sym=%s v=%d vol=%s max=%s res=%s owner=%s mint=%v burn=%v", c.ID, c.Symbol.String(), c.Version, c.Volume, c.MaxSupply, c.Reserve, o, c.Mintable, c.Burnable)
+		}
+		live := map[uint64]string{}
+		for _, c := range e.Coins {
+			live[c.ID] = key(c)
+		}
+		for _, c := range f.Coins {
+			if live[c.ID] != key(c) {
+				*mon = append(*mon, MonitorFailure{What: fmt.Sprintf("C22: at height %d the running node holds coin {%s}, the committed state holds {%s}", nd.Height, live[c.ID], key(c)), Key: "c22-registry-not-committed", Replay: where})
+			}
+			delete(live, c.ID)
+		}
+		for id, k := range live {
+			*mon = append(*mon, MonitorFailure{What: fmt.Sprintf("C22: at height %d coin %d {%s} of the running node is not in the committed state", nd.Height, id, k), Key: "c22-registry-not-committed", Replay: where})
+		}
+	}
 	active := map[string]uint64{}
 	versions := map[string]uint64{}
 	seen := map[uint64]bool{}
